@@ -119,7 +119,14 @@ def run_shard(spec, rep):
                     tsafe = numpy.array([t, t + 3.0, t - 2.0])
                     vec = getattr(comp, name)(tsafe)
                     ref_vec = [float(getattr(comp, name)(float(v))) for v in tsafe]
-                    ok = hasattr(vec, "__len__") and len(vec) == 3 and all(abs(float(a) - b) <= 1e-12 * (abs(b) + 1e-300) for a, b in zip(vec, ref_vec))
+                    # rounding differs between the array and the scalar evaluation by a few ulp of the largest TERM (the value itself
+                    # may be a small difference of large terms: cp near a zero of its cubic, a Frost latent heat near b = -2c/T)
+                    hc, vc = comp.heat_capacity_constants, comp.vapour_pressure_constants
+                    tm = float(max(abs(tsafe)))
+                    terms = {"get_specific_heat": abs(hc.a) + abs(hc.b) * tm + abs(hc.c) * tm**2 + abs(hc.d) * tm**3,
+                             "get_vaporisation_heat": R * (abs(vc.b) + 2 * abs(vc.c) / float(min(abs(tsafe)))) / 1000 if vc.type == "frost" else 0.0,
+                             "get_vapor_pressure": 0.0}[name]
+                    ok = hasattr(vec, "__len__") and len(vec) == 3 and all(abs(float(a) - b) <= 1e-12 * (abs(b) + terms + 1e-300) for a, b in zip(vec, ref_vec))
                     rep.require("array arguments are evaluated element-wise (" + name + ")", ok, case, {"vectorised": repr(vec)[:160], "element-wise": ref_vec})
             d = _richardson(lambda x: comp.get_cooling_heat(x, t1), t0, H)
             cp = comp.get_specific_heat(t0)
